@@ -241,5 +241,173 @@ theorem interpolate_eval (pts ys : List F) (hnd : pts.Nodup) (hlen : ys.length =
   have := (lagrange_aux [] pts ys (by simpa using hnd) hlen).2 t h1 h2
   simp [this]
 
+/-! ### `verify_multi_points` -/
+
+/-- the η-combination of the interpolants' values at `τ` -/
+def interpAt (pts : List F) (evals : List (List F)) (η τ : F) : F :=
+  dot (evals.map (fun e => evalPoly (interpolate pts e) τ)) (powersOf η evals.length)
+
+/-- `verify_multi_points` under a well-formed verifier key `(g·τⁱ)_{i<a}, (g2·τⁱ)_{i<b}` with at
+least `m` G1 and `m+1` G2 elements, for distinct points and at least one evaluation vector: no
+abort, and the decision is the pairing equation
+`(Σ ηⁱCᵢ − g·I(τ))·g2 = π·g2·Z(τ)`. -/
+theorem verifyMulti_wf [DecidableEq F] (g g2 τ : F) (a b : Nat) (comms pts : List F)
+    (evals : List (List F)) (π η : F) (hnd : pts.Nodup) (ha : pts.length ≤ a)
+    (hb : pts.length + 1 ≤ b) (hev : evals ≠ []) :
+    verifyMultiPoints ⟨PCV.powers g τ a, PCV.powers g2 τ b⟩ comms pts evals π η
+      = .ok (decide ((dot comms (powersOf η evals.length) - g * interpAt pts evals η τ) * g2
+            = π * (g2 * prodLin pts τ))) := by
+  unfold verifyMultiPoints
+  have hany : (scaAll [] pts).any (fun s => decide (s = 0)) = false := by
+    rw [List.any_eq_false]
+    intro s hs
+    simpa using scaAll_ne_zero [] pts (by simpa using hnd) s hs
+  rw [if_neg (by simp [hany])]
+  obtain ⟨B, hB, hBl, hBe⟩ := linearCombination_spec (evals.map (interpolate pts))
+    (powersOf η evals.length) pts.length (by simpa using hev)
+    (powersOf_ne_nil η _ (by simpa using hev))
+    (by intro p hp
+        obtain ⟨e, _, rfl⟩ := List.mem_map.1 hp
+        exact interpolate_length pts e)
+  simp only [hB]
+  have hz : dot (PCV.powers g2 τ b) (vanishing pts) = g2 * prodLin pts τ := by
+    rw [dot_comm, dot_powers _ _ _ _ (by rw [vanishing_length]; exact hb), eval_vanishing]
+  have hi : dot (PCV.powers g τ a) B = g * interpAt pts evals η τ := by
+    rw [dot_comm, dot_powers _ _ _ _ (by omega), hBe]
+    simp [interpAt, List.map_map, Function.comp_def]
+  rw [hz, hi]
+  obtain ⟨b', rfl⟩ := Nat.exists_eq_add_of_le' (show 1 ≤ b by omega)
+  simp only [PCV.powers]
+
+theorem time_batchCommit_new (g g2 τ : F) (D m : Nat) (ps : List (List F))
+    (h : ∀ p ∈ ps, p.length ≤ D + 1) :
+    Time.batchCommit (CK.new g g2 τ D m) ps = ps.map (fun p => g * evalPoly p τ) := by
+  unfold Time.batchCommit
+  apply List.map_congr_left
+  intro p hp
+  exact time_commit_new g g2 τ D m p (h p hp)
+
+/-- what `batch_open_multi_points` returns under a key made by `new`: `g·q(τ)` for a quotient `q`
+of the η-combination `B` by the vanishing polynomial, `B = q·Z + r`, `|r| ≤ m` -/
+theorem time_batchOpen_new [DecidableEq F] (g g2 τ : F) (D m : Nat) (ps : List (List F))
+    (pts : List F) (η π : F) (hps : ps ≠ []) (h : ∀ p ∈ ps, p.length ≤ D + 1)
+    (hπ : Time.batchOpenMultiPoints (CK.new g g2 τ D m) ps pts η = .ok π) :
+    ∃ q r : List F, π = g * evalPoly q τ ∧ r.length ≤ pts.length ∧
+      ∀ x, dot (ps.map (evalPoly · x)) (powersOf η ps.length)
+        = evalPoly q x * prodLin pts x + evalPoly r x := by
+  unfold Time.batchOpenMultiPoints at hπ
+  split at hπ
+  · cases hπ
+  · obtain ⟨B, hB, hBl, hBe⟩ := linearCombination_spec ps (powersOf η ps.length) (D + 1) hps
+      (powersOf_ne_nil η _ (by simpa using hps)) h
+    rw [hB] at hπ
+    simp only at hπ
+    obtain ⟨S, hS, hSl⟩ := vanishing_monic pts
+    unfold Time.openMultiPoints at hπ
+    rw [hS] at hπ
+    obtain ⟨q, r, hd, hql, hrl, hspec⟩ := time_divide_spec B S
+    rw [hd] at hπ
+    simp only at hπ
+    injection hπ with hπ
+    refine ⟨q, r, ?_, by omega, ?_⟩
+    · rw [← hπ, time_commit_new _ _ _ _ _ _ (by omega)]
+    · intro x
+      rw [← hBe, hspec x, ← hS, eval_vanishing]
+
+/-- **defect of `verify_multi_points` on an honest batch proof with arbitrary claimed evaluations**:
+accepted iff `g·g2·(I_claimed(τ) − I_true(τ)) = 0`, the η-combinations of the Lagrange interpolants
+of the claimed and of the true evaluation vectors at the trapdoor. -/
+theorem verifyMulti_honest_iff [DecidableEq F] (g g2 τ : F) (D m a b : Nat) (ps : List (List F))
+    (pts : List F) (claimed : List (List F)) (η π : F) (hps : ps ≠ [])
+    (h : ∀ p ∈ ps, p.length ≤ D + 1) (hnd : pts.Nodup) (ha : pts.length ≤ a)
+    (hb : pts.length + 1 ≤ b) (hcl : claimed.length = ps.length)
+    (hπ : Time.batchOpenMultiPoints (CK.new g g2 τ D m) ps pts η = .ok π) :
+    verifyMultiPoints ⟨PCV.powers g τ a, PCV.powers g2 τ b⟩
+        (Time.batchCommit (CK.new g g2 τ D m) ps) pts claimed π η = .ok true
+      ↔ g * g2 * (interpAt pts claimed η τ
+          - interpAt pts (ps.map (fun p => pts.map (evalPoly p))) η τ) = 0 := by
+  have hcne : claimed ≠ [] := by
+    intro hc; rw [hc] at hcl; exact hps (List.length_eq_zero_iff.1 hcl.symm)
+  rw [verifyMulti_wf g g2 τ a b _ pts claimed π η hnd ha hb hcne, time_batchCommit_new _ _ _ _ _ _ h,
+    dot_map_mul_left, hcl]
+  obtain ⟨q, r, hq, hrl, hspec⟩ := time_batchOpen_new g g2 τ D m ps pts η π hps h hπ
+  -- the remainder and the η-combination of the true interpolants agree on the points, hence at τ
+  obtain ⟨I, hI, hIl, hIe⟩ := linearCombination_spec
+    ((ps.map (fun p => pts.map (evalPoly p))).map (interpolate pts))
+    (powersOf η ps.length) pts.length (by simpa using hps)
+    (powersOf_ne_nil η _ (by simpa using hps))
+    (by intro p hp
+        obtain ⟨e, _, rfl⟩ := List.mem_map.1 hp
+        exact interpolate_length pts e)
+  have hagree : ∀ a ∈ pts, evalPoly r a = evalPoly I a := by
+    intro a ha
+    have h1 := hspec a
+    rw [prodLin_eq_zero_of_mem pts a ha] at h1
+    rw [hIe a]
+    have : evalPoly r a = dot (ps.map (evalPoly · a)) (powersOf η ps.length) := by
+      rw [h1]; ring
+    rw [this]
+    congr 1
+    simp only [List.map_map]
+    apply List.map_congr_left
+    intro p _
+    obtain ⟨t, ht, rfl⟩ := List.mem_iff_getElem.1 ha
+    simp only [Function.comp_def]
+    rw [interpolate_eval pts _ hnd (by simp) t ht (by simpa using ht)]
+    simp
+  have hrI := eval_eq_of_agree r I pts hrl hIl hnd hagree τ
+  have hItrue : interpAt pts (ps.map (fun p => pts.map (evalPoly p))) η τ = evalPoly I τ := by
+    rw [hIe τ]
+    simp [interpAt, List.map_map, Function.comp_def]
+  have hτ := hspec τ
+  rw [hItrue, ← hrI]
+  simp only [Except.ok.injEq, decide_eq_true_eq]
+  rw [hq]
+  constructor
+  · intro hh; linear_combination (-1 : F) * hh + (g * g2) * hτ
+  · intro hh; linear_combination (-1 : F) * hh + (g * g2) * hτ
+
+/-- shape of the verifier key derived from a key made by `new`, either way -/
+theorem vk_new_shape (g g2 τ : F) (D m : Nat) (hD : m ≤ D) (vk : VK F)
+    (hvk : VK.ofTime (CK.new g g2 τ D m) = .ok vk
+      ∨ VK.ofSpace (CKS.ofTime (CK.new g g2 τ D m)) = .ok vk) :
+    ∃ a, m ≤ a ∧ vk = ⟨PCV.powers g τ a, PCV.powers g2 τ (m + 1)⟩ := by
+  rcases hvk with hvk | hvk
+  · rw [vk_ofTime_new] at hvk
+    injection hvk with hvk
+    refine ⟨m, Nat.le_refl _, ?_⟩
+    rw [← hvk]
+    congr 2 <;> omega
+  · rw [vk_ofSpace_new] at hvk
+    injection hvk with hvk
+    refine ⟨max m 1, by omega, ?_⟩
+    rw [← hvk]
+    congr 2 <;> omega
+
+theorem verifyMulti_new_iff [DecidableEq F] (g g2 τ : F) (D m : Nat) (ps : List (List F))
+    (pts : List F) (claimed : List (List F)) (η π : F) (hps : ps ≠ [])
+    (h : ∀ p ∈ ps, p.length ≤ D + 1) (hnd : pts.Nodup) (hm : pts.length ≤ m) (hD : m ≤ D)
+    (hcl : claimed.length = ps.length)
+    (hπ : Time.batchOpenMultiPoints (CK.new g g2 τ D m) ps pts η = .ok π) (vk : VK F)
+    (hvk : VK.ofTime (CK.new g g2 τ D m) = .ok vk
+      ∨ VK.ofSpace (CKS.ofTime (CK.new g g2 τ D m)) = .ok vk) :
+    verifyMultiPoints vk (Time.batchCommit (CK.new g g2 τ D m) ps) pts claimed π η = .ok true
+      ↔ g * g2 * (interpAt pts claimed η τ
+          - interpAt pts (ps.map (fun p => pts.map (evalPoly p))) η τ) = 0 := by
+  obtain ⟨a, ha, rfl⟩ := vk_new_shape g g2 τ D m hD vk hvk
+  exact verifyMulti_honest_iff g g2 τ D m a (m + 1) ps pts claimed η π hps h hnd (by omega)
+    (by omega) hcl hπ
+
+theorem verifyMulti_new_complete [DecidableEq F] (g g2 τ : F) (D m : Nat) (ps : List (List F))
+    (pts : List F) (η π : F) (hps : ps ≠ [])
+    (h : ∀ p ∈ ps, p.length ≤ D + 1) (hnd : pts.Nodup) (hm : pts.length ≤ m) (hD : m ≤ D)
+    (hπ : Time.batchOpenMultiPoints (CK.new g g2 τ D m) ps pts η = .ok π) (vk : VK F)
+    (hvk : VK.ofTime (CK.new g g2 τ D m) = .ok vk
+      ∨ VK.ofSpace (CKS.ofTime (CK.new g g2 τ D m)) = .ok vk) :
+    verifyMultiPoints vk (Time.batchCommit (CK.new g g2 τ D m) ps) pts
+      (ps.map (fun p => pts.map (evalPoly p))) π η = .ok true := by
+  rw [verifyMulti_new_iff g g2 τ D m ps pts _ η π hps h hnd hm hD (by simp) hπ vk hvk]
+  ring
+
 end SKZG
 end PCV
